@@ -232,7 +232,7 @@ PROPS['C01'] = {
     'note': 'ground truth of every case (who signed what, which bytes were altered, claimed blocks, key identifiers) comes from the harness encoder, never from the library. The step order of verify_*_at, the AKI comparison, the SKI comparison and the inspect-then-verify composition are re-read from src/repository/cert.rs on every run.',
     'shards': {'quick': 4, 'thorough': 16},
     'budget': {'quick': 900, 'thorough': 7200},
-    'rule': '1.5k (thorough 12k) chains of depth 0-3 below a TA with random IPv4/IPv6/AS sets (small numbers, ends of the space, /8 boundaries), per-certificate inherit/missing/subset/overclaim claims under refuse or trim policy; leaf kinds ta/ca/ee/detached-ee/router (ECDSA and RSA keys); one tampering per case out of 24: time at nb-1/nb/na/na+1, nb=na, foreign signer, AKI of another key / one bit / absent, SKI one bit / other key, signature bit flip, TBS bit flip, resource OID/policy mismatch, CRLDP/AIA/basicConstraints/SIA toggles, TA inherit, policy switch, EKU toggle, rpkiNotify.',
+    'rule': 'every model verdict is computed from the octets of the certificates (CertDer.decodeCert); certd: 8 certificates x about 350 hand-made variations of every extension reader, names, algorithm identifiers, validity, key, envelope + 40 (thorough 400) mutants, compared on accept/reject, 22 fields and the ten inspect_* verdicts; 1.5k (thorough 12k) chains of depth 0-3 below a TA with random IPv4/IPv6/AS sets (small numbers, ends of the space, /8 boundaries), per-certificate inherit/missing/subset/overclaim claims under refuse or trim policy; leaf kinds ta/ca/ee/detached-ee/router (ECDSA and RSA keys); one tampering per case out of 24: time at nb-1/nb/na/na+1, nb=na, foreign signer, AKI of another key / one bit / absent, SKI one bit / other key, signature bit flip, TBS bit flip, resource OID/policy mismatch, CRLDP/AIA/basicConstraints/SIA toggles, TA inherit, policy switch, EKU toggle, rpkiNotify.',
     'trusted_base': ['aws-lc RSA/ECDSA verification and SHA-1 (idealised as the sigOk / keyId inputs)', 'bcder and the X.509 decoder for everything except what the facts record (validated differentially)'],
     'assumptions': ['a signature verifies under a key iff it was produced with the matching private key over exactly those bytes (no forgeries, no collisions)'],
 }
